@@ -200,7 +200,7 @@ OP_SPECIAL = [['op', [['v', "it's"], ['tab', 'a\tb'], ['empty', '']]]]
 
 def _stack_values() -> list:
     return [('none', None), ('empty', []), ('simple', OP_SIMPLE), ('nested', OP_NESTED), ('case', OP_CASE),
-            ('backslash', OP_BACKSLASH), ('quote_tab', OP_SPECIAL)]
+            ('escapable', OP_BACKSLASH), ('escapable', OP_SPECIAL)]
 
 
 FEATURES: dict = {
@@ -243,7 +243,9 @@ def evaluate(setting: dict) -> Result:
     return res
 
 
-EXPLORER = Explorer(PART, FEATURES, evaluate)
+GROUPS = {'volume': 'interval', 'level': 'interval', 'pitch': 'interval',
+          'stack_start': 'stack', 'stack_update': 'stack', 'stack_stop': 'stack'}
+EXPLORER = Explorer(PART, FEATURES, evaluate, None, GROUPS)
 
 # The one soundscript the repository's tests carry (tests/test_sndscript.py::test_parse builds this tree;
 # there is no soundscript sample *file* under tests/).
@@ -265,7 +267,7 @@ def check_sample(acc: core.Acc) -> None:
         acc.nontrivial += 1
     acc.outcome((PART, tuple(k for k, _ in res.fails) or 'ok', 'sample'))
     for kind, detail in res.fails:
-        acc.fail(kind, case, f'[sndscript] {detail}', part=PART, culprit='sample:test_parse')
+        acc.fail(kind, case, f'[sndscript] {detail}', part=PART, cause='sample:test_parse')
 
 
 RULE = ''
